@@ -890,3 +890,94 @@ Proof.
   split; [reflexivity|]. split; [reflexivity|]. split; [|exact P].
   unfold s_rows at 1. simpl. rewrite map_snd_unkeyed. exact P.
 Qed.
+
+(* ======================================================================
+   6. several tables in one database
+   ====================================================================== *)
+Lemma commit_all_ok d : Forall inv d -> commit_all all_true d = Some (map committed d).
+Proof.
+  induction 1 as [|t r Ht Hr IH]; simpl; [reflexivity|].
+  rewrite (commit_abs t Ht), IH. reflexivity.
+Qed.
+
+Lemma upd_map {A B} (f : A -> B) i x : forall l, map f (upd i x l) = upd i (f x) (map f l).
+Proof. induction i as [|i IH]; intros [|y l]; simpl; try reflexivity. rewrite IH. reflexivity. Qed.
+
+Lemma Forall_upd {A} (P : A -> Prop) i x : forall l, Forall P l -> P x -> Forall P (upd i x l).
+Proof.
+  induction i as [|i IH]; intros [|y l] Hl Hx; simpl; auto; inversion Hl; subst; constructor; auto.
+Qed.
+
+Lemma Forall_nth_error {A} (P : A -> Prop) l : Forall P l -> forall i x, nth_error l i = Some x -> P x.
+Proof.
+  induction 1 as [|y l Hy Hl IH]; intros [|i] x Hx; simpl in Hx; try discriminate.
+  - inversion Hx; subst; exact Hy.
+  - eauto.
+Qed.
+
+Lemma map_abs_committed d : map abs (map committed d) = map abs d.
+Proof. rewrite map_map. apply map_ext. intros t. apply abs_committed. Qed.
+
+Lemma Forall_inv_committed d : Forall inv d -> Forall inv (map committed d).
+Proof. induction 1; simpl; constructor; auto using inv_committed. Qed.
+
+Definition dstep_ok (d : list table) (o : dop) : Prop :=
+  snd (dstep all_true d o) = snd (sdstep (map abs d) o) /\
+  map abs (fst (dstep all_true d o)) = fst (sdstep (map abs d) o) /\
+  Forall inv (fst (dstep all_true d o)).
+
+Lemma table_step_ok (d : list table) i t o :
+  Forall inv d -> nth_error d i = Some t -> op_dom (abs t) o = true ->
+  let r := step all_true t o in
+  let r' := sstep (abs t) o in
+  snd r = snd r' /\ map abs (upd i (fst r) d) = upd i (fst r') (map abs d) /\ Forall inv (upd i (fst r) d).
+Proof.
+  intros Hd Hn Ho. pose proof (Forall_nth_error _ _ Hd _ _ Hn) as Hi.
+  destruct (step_refines t o Hi Ho) as [Hv [Ha Hn']]. simpl.
+  split; [exact Hv|]. split; [rewrite upd_map, Ha; reflexivity | apply Forall_upd; assumption].
+Qed.
+
+Lemma dstep_refines d o : Forall inv d -> dop_dom (map abs d) o = true -> dstep_ok d o.
+Proof.
+  intros Hd Ho. unfold dstep_ok. destruct o as [i o|].
+  - unfold dstep, sdstep. simpl in Ho. rewrite nth_error_map in *.
+    destruct (is_query o) eqn:Eq.
+    + rewrite (commit_all_ok d Hd). rewrite nth_error_map.
+      destruct (nth_error d i) as [t|] eqn:En; simpl in *.
+      * pose proof (Forall_inv_committed d Hd) as Hd'.
+        assert (En' : nth_error (map committed d) i = Some (committed t)) by (rewrite nth_error_map, En; reflexivity).
+        assert (Ho' : op_dom (abs (committed t)) o = true) by (rewrite abs_committed; exact Ho).
+        destruct (table_step_ok (map committed d) i (committed t) o Hd' En' Ho') as [Hv [Ha Hn]].
+        rewrite abs_committed, map_abs_committed in *.
+        destruct (step all_true (committed t) o) as [t1 v]. destruct (sstep (abs t) o) as [s1 v'].
+        simpl in *. split; [congruence|]. split; assumption.
+      * split; [reflexivity|]. split; [apply map_abs_committed | apply Forall_inv_committed; exact Hd].
+    + destruct (nth_error d i) as [t|] eqn:En; simpl in *.
+      * destruct (table_step_ok d i t o Hd En Ho) as [Hv [Ha Hn]].
+        destruct (step all_true t o) as [t1 v]. destruct (sstep (abs t) o) as [s1 v'].
+        simpl in *. split; [congruence|]. split; assumption.
+      * split; [reflexivity|]. split; [reflexivity | exact Hd].
+  - simpl. split; [|split; [reflexivity | exact Hd]].
+    f_equal. rewrite map_map. reflexivity.
+Qed.
+
+Theorem drun_refines : forall ops d, Forall inv d -> sddom (map abs d) ops = true ->
+  drun all_true d ops = sdrun (map abs d) ops.
+Proof.
+  induction ops as [|o ops IH]; intros d Hd Hdom; [reflexivity|].
+  simpl in Hdom. apply andb_true_iff in Hdom. destruct Hdom as [H1 H2].
+  destruct (dstep_refines d o Hd H1) as [Hv [Ha Hn]].
+  simpl. destruct (dstep all_true d o) as [d1 v] eqn:E1. destruct (sdstep (map abs d) o) as [s1 v'] eqn:E2.
+  simpl in *. subst v' s1. f_equal. apply IH; assumption.
+Qed.
+
+
+Theorem drefines_create fl tbls ops : fl = all_true ->
+  sddom (sdcreate tbls) ops = true -> drun fl (dcreate tbls) ops = sdrun (sdcreate tbls) ops.
+Proof.
+  intros -> Hd.
+  assert (E : map abs (dcreate tbls) = sdcreate tbls).
+  { unfold dcreate, sdcreate. rewrite map_map. apply map_ext. intros cr. apply abs_create. }
+  rewrite <- E in *. apply drun_refines; [|exact Hd].
+  unfold dcreate. apply Forall_forall. intros t Ht. apply in_map_iff in Ht. destruct Ht as [cr [<- _]]. apply inv_create.
+Qed.
